@@ -17,6 +17,12 @@
 //!      <size> <nx> <xadj…> <na> <adjncy…> <nd> <data…> W <data> I <n> <p…>
 //!   strerror <code>
 //!   rel <any of the above>   the same op through the RELEASE build of the library (second C process)
+//!   reuse <op> ;; <op> [;; <op> …]   HANDLE REUSE (algorithm ops only): executed in order by the C driver
+//!      inside ONE pool of coupe_data handles — a data set of a later op with the same role (P/W),
+//!      representation, type, arity and length as an earlier one is not built again: the memory behind
+//!      the existing handle (array / constant / what the callback reads) is overwritten with the new
+//!      values and the SAME handle is passed again.  Each step is judged like the op alone (the Rust
+//!      API on the values current at the time of the call); out = the steps' lines joined by ` ;; `.
 //! The recorded op carries the reference outcome of the Rust API after a token `R`
 //! (`ok <n> <ids>` | `okties` | `err <Variant> <n> <ids>` | `herr InvalidOrder <n> <ids>` |
 //! `panic` | `na` = no Rust-level counterpart, the C prologue must reject | `nulladj`), which is
@@ -620,7 +626,10 @@ fn reference(op: &Op) -> Ref {
             let algo = coupe::FiducciaMattheyses {
                 max_passes: if max_passes == 0 { None } else { Some(max_passes) },
                 max_moves_per_pass: if max_moves == 0 { None } else { Some(max_moves) },
-                max_imbalance: if imb < 0.0 { None } else { Some(imb) },
+                max_imbalance: match FM_TRANSLATION.with(|t| t.get()) {
+                    Some(forced) => forced,
+                    None => fm_documented(imb),
+                },
                 max_bad_move_in_a_row: max_bad,
             };
             let tie_free = fm_tie_free(&ws.logical_f64());
@@ -647,6 +656,23 @@ fn reference(op: &Op) -> Ref {
         }
         Op::Strerror(_) => Ref::Na,
     }
+}
+
+/// coupe.h: "if `max_imbalance` is negative, it will be set to the imbalance of the input
+/// partition" — NEGATIVE is `< 0`: -0.0 is not negative (it compares equal to zero), neither is
+/// a NaN; every value below zero is, down to the smallest subnormal and -inf.
+fn fm_documented(imb: f64) -> Option<f64> {
+    if imb < 0.0 {
+        None
+    } else {
+        Some(imb)
+    }
+}
+
+thread_local! {
+    /// Generator-side only (sensitivity probing): evaluate the FiducciaMattheyses reference under
+    /// ANOTHER translation of `max_imbalance` than the documented one.  Never set while judging.
+    static FM_TRANSLATION: std::cell::Cell<Option<Option<f64>>> = const { std::cell::Cell::new(None) };
 }
 
 /// Sufficient condition for FiducciaMattheyses to be independent of the iteration order
@@ -905,76 +931,20 @@ fn parse_c_ids(l: &str) -> Option<Vec<usize>> {
     ids.split_whitespace().map(|t| t.parse().ok()).collect()
 }
 
-pub fn run_op(ctx: &mut Ctx, full_line: &str) {
-    // `rel <op>`: the same op through the RELEASE build of the library (the one `ffi/Makefile`
-    // installs); the reference stays the Rust API in this (dev-profile) process
-    let (release, op_line) = match full_line.trim_start().strip_prefix("rel ") {
-        Some(rest) => (true, rest),
-        None => (false, full_line),
-    };
-    let Some(op) = parse_op(op_line) else {
-        ctx.record(full_line.to_string(), "bad-op".into(), false);
-        return;
-    };
-    let bare = format_op(&op);
-    let r = reference(&op);
-    let prefix = if release { "rel " } else { "" };
-    let recorded = match op {
-        Op::Strerror(_) => format!("{}{}", prefix, bare),
-        _ => format!("{}{} R {}", prefix, bare, ref_string(&r)),
-    };
-    let c = call_c(release, &bare);
-    let lib = if release { "RELEASE library: " } else { "" };
-    let cl = match c {
-        CRes::Line(l) => l,
-        CRes::Died(why) => {
-            let idx = ctx.record(recorded, "child-died".into(), true);
-            ctx.fail(idx, "ffi-abort", format!("{}the C driver process died during the call ({}) — Rust reference: {}", lib, why, ref_string(&r)));
-            return;
-        }
-        CRes::Hang => {
-            let idx = ctx.record(recorded, "child-hang".into(), true);
-            ctx.fail(idx, "ffi-hang", "the C call did not return within the watchdog delay".into());
-            return;
-        }
-        CRes::Build(m) => {
-            let idx = ctx.record(recorded, "capi-build-failed".into(), true);
-            ctx.fail(idx, "capi-build", m);
-            return;
-        }
-    };
-    ctx.count(&format!("{}code:{}", if release { "release:" } else { "" }, cl.split(|ch| ch == ' ' || ch == '(').next().unwrap_or("")));
-    if release {
-        if let Ref::Panic(m) = &r {
-            // The dev-profile reference panics.  Without overflow checks and debug assertions the
-            // release library may or may not (a wrapped sum is not a panic there), so the code is
-            // not compared: what the property requires is that the caller SURVIVES the call.
-            ctx.count(&format!("release_on_dev_panic:{}", if cl == code("CRASH") { "CRASH" } else { "other-code" }));
-            let idx = ctx.record(recorded, "survived".into(), true);
-            if cl.contains("OVERRUN") {
-                ctx.fail(idx, "ffi-overrun", format!("{}wrote past the end of the caller's array (dev reference panics: {})", lib, m));
-            } else if cl == "bad-op" {
-                ctx.fail(idx, "driver-bad-op", "the C driver rejects an op the harness accepts".into());
-            }
-            return;
-        }
+fn op_init(op: &Op) -> &[usize] {
+    match op {
+        Op::Geo { init, .. } | Op::Hilbert { init, .. } | Op::Num { init, .. } | Op::Fm { init, .. } => init,
+        Op::Strerror(_) => &[],
     }
-    ctx.count(&format!(
-        "ref:{}",
-        match &r {
-            Ref::Panic(m) => panic_sig(m),
-            Ref::Err(e, _) => format!("err {}", e),
-            other => ref_string(other).split(' ').next().unwrap_or("").to_string(),
-        }
-    ));
+}
 
+/// What the property requires of the C result line `cl` of one call, from the Rust reference `r`
+/// and the header text: (canonical out, verdict).
+fn judge(ctx: &mut Ctx, op: &Op, r: &Ref, cl: &str) -> (String, Option<(&'static str, String)>) {
     // what the property requires of the C result, from the Rust reference and the header text
-    let mut verdict: Option<(&str, String)> = None;
-    let mut out = cl.clone();
-    let (elem_count, init): (usize, &[usize]) = match &op {
-        Op::Geo { init, .. } | Op::Hilbert { init, .. } | Op::Num { init, .. } | Op::Fm { init, .. } => (init.len(), init),
-        Op::Strerror(_) => (0, &[]),
-    };
+    let mut verdict: Option<(&'static str, String)> = None;
+    let mut out = cl.to_string();
+    let init: &[usize] = op_init(op);
     if cl.contains("OVERRUN") {
         verdict = Some(("ffi-overrun", "the library wrote past the end of the caller's array".into()));
     } else if cl == "bad-op" {
@@ -982,7 +952,7 @@ pub fn run_op(ctx: &mut Ctx, full_line: &str) {
     } else if cl.contains("STRERROR_EMPTY") || cl.starts_with("UNKNOWN") {
         verdict = Some(("ffi-unknown-code", format!("code outside enum coupe_err or without message: {}", cl)));
     } else {
-        match (&op, &r) {
+        match (op, r) {
             (Op::Strerror(c), _) => {
                 let msg = cl.splitn(3, ' ').nth(2).unwrap_or("");
                 if !cl.starts_with(&format!("strerror {} ", c)) || msg.is_empty() || msg == "<null>" {
@@ -1066,14 +1036,161 @@ pub fn run_op(ctx: &mut Ctx, full_line: &str) {
                 verdict = Some(("harness-internal", format!("unexpected reference {:?}", r)));
             }
         }
-        if cl == "NULL_ADJNCY" && r != Ref::NullAdj {
+        if cl == "NULL_ADJNCY" && *r != Ref::NullAdj {
             verdict = Some(("ffi-adjncy-check", "coupe_adjncy_csr refused a structure sprs accepts".into()));
         }
     }
+    (out, verdict)
+}
+
+pub fn run_op(ctx: &mut Ctx, full_line: &str) {
+    // `rel <op>`: the same op through the RELEASE build of the library (the one `ffi/Makefile`
+    // installs); the reference stays the Rust API in this (dev-profile) process
+    let (release, op_line) = match full_line.trim_start().strip_prefix("rel ") {
+        Some(rest) => (true, rest),
+        None => (false, full_line),
+    };
+    if let Some(rest) = op_line.trim_start().strip_prefix("reuse ") {
+        if release {
+            ctx.record(full_line.to_string(), "bad-op".into(), false);
+            return;
+        }
+        return run_seq(ctx, full_line, rest);
+    }
+    let Some(op) = parse_op(op_line) else {
+        ctx.record(full_line.to_string(), "bad-op".into(), false);
+        return;
+    };
+    let bare = format_op(&op);
+    let r = reference(&op);
+    let prefix = if release { "rel " } else { "" };
+    let recorded = match op {
+        Op::Strerror(_) => format!("{}{}", prefix, bare),
+        _ => format!("{}{} R {}", prefix, bare, ref_string(&r)),
+    };
+    let c = call_c(release, &bare);
+    let lib = if release { "RELEASE library: " } else { "" };
+    let cl = match c {
+        CRes::Line(l) => l,
+        CRes::Died(why) => {
+            let idx = ctx.record(recorded, "child-died".into(), true);
+            ctx.fail(idx, "ffi-abort", format!("{}the C driver process died during the call ({}) — Rust reference: {}", lib, why, ref_string(&r)));
+            return;
+        }
+        CRes::Hang => {
+            let idx = ctx.record(recorded, "child-hang".into(), true);
+            ctx.fail(idx, "ffi-hang", "the C call did not return within the watchdog delay".into());
+            return;
+        }
+        CRes::Build(m) => {
+            let idx = ctx.record(recorded, "capi-build-failed".into(), true);
+            ctx.fail(idx, "capi-build", m);
+            return;
+        }
+    };
+    ctx.count(&format!("{}code:{}", if release { "release:" } else { "" }, cl.split(|ch| ch == ' ' || ch == '(').next().unwrap_or("")));
+    if release {
+        if let Ref::Panic(m) = &r {
+            // The dev-profile reference panics.  Without overflow checks and debug assertions the
+            // release library may or may not (a wrapped sum is not a panic there), so the code is
+            // not compared: what the property requires is that the caller SURVIVES the call.
+            ctx.count(&format!("release_on_dev_panic:{}", if cl == code("CRASH") { "CRASH" } else { "other-code" }));
+            let idx = ctx.record(recorded, "survived".into(), true);
+            if cl.contains("OVERRUN") {
+                ctx.fail(idx, "ffi-overrun", format!("{}wrote past the end of the caller's array (dev reference panics: {})", lib, m));
+            } else if cl == "bad-op" {
+                ctx.fail(idx, "driver-bad-op", "the C driver rejects an op the harness accepts".into());
+            }
+            return;
+        }
+    }
+    ctx.count(&format!(
+        "ref:{}",
+        match &r {
+            Ref::Panic(m) => panic_sig(m),
+            Ref::Err(e, _) => format!("err {}", e),
+            other => ref_string(other).split(' ').next().unwrap_or("").to_string(),
+        }
+    ));
+
+    let (out, verdict) = judge(ctx, &op, &r, &cl);
+    let elem_count = op_init(&op).len();
     let nontrivial = !matches!(op, Op::Strerror(_)) && (elem_count >= 2 || !cl.starts_with("OK("));
     let idx = ctx.record(recorded, out, nontrivial);
     if let Some((sig, what)) = verdict {
         ctx.fail(idx, sig, what);
+    }
+}
+
+/// `reuse <op> ;; <op> …` — handle reuse across calls with changed data (see the module doc).
+fn run_seq(ctx: &mut Ctx, full_line: &str, rest: &str) {
+    let ops: Option<Vec<Op>> = rest.split(";;").map(parse_op).collect();
+    let ops = match ops {
+        Some(v) if v.len() >= 2 && v.len() <= 8 && !v.iter().any(|o| matches!(o, Op::Strerror(_))) => v,
+        _ => {
+            ctx.record(full_line.to_string(), "bad-op".into(), false);
+            return;
+        }
+    };
+    // the reference of every step: the Rust API on the values current at the time of that call
+    let refs: Vec<Ref> = ops.iter().map(reference).collect();
+    let bare = format!("reuse {}", ops.iter().map(format_op).collect::<Vec<_>>().join(" ;; "));
+    let recorded = format!(
+        "reuse {}",
+        ops.iter().zip(&refs).map(|(o, r)| format!("{} R {}", format_op(o), ref_string(r))).collect::<Vec<_>>().join(" ;; ")
+    );
+    let cl = match call_c(false, &bare) {
+        CRes::Line(l) => l,
+        CRes::Died(why) => {
+            let idx = ctx.record(recorded, "child-died".into(), true);
+            ctx.fail(idx, "ffi-abort", format!("the C driver process died during a sequence of calls on reused handles ({})", why));
+            return;
+        }
+        CRes::Hang => {
+            let idx = ctx.record(recorded, "child-hang".into(), true);
+            ctx.fail(idx, "ffi-hang", "a C call of the sequence did not return within the watchdog delay".into());
+            return;
+        }
+        CRes::Build(m) => {
+            let idx = ctx.record(recorded, "capi-build-failed".into(), true);
+            ctx.fail(idx, "capi-build", m);
+            return;
+        }
+    };
+    let parts: Vec<&str> = cl.split(" ;; ").collect();
+    if parts.len() != ops.len() {
+        let idx = ctx.record(recorded, cl.clone(), true);
+        ctx.fail(idx, "driver-bad-op", format!("the C driver answered {} lines to {} steps: {}", parts.len(), ops.len(), cl));
+        return;
+    }
+    let mut outs: Vec<String> = vec![];
+    let mut first: Option<(usize, &'static str, String)> = None;
+    for (i, ((op, r), l)) in ops.iter().zip(&refs).zip(&parts).enumerate() {
+        ctx.count(&format!("reuse:code:{}", l.split(|ch| ch == ' ' || ch == '(').next().unwrap_or("")));
+        let (out, v) = judge(ctx, op, r, l);
+        outs.push(out);
+        if first.is_none() {
+            if let Some((sig, what)) = v {
+                first = Some((i, sig, what));
+            }
+        }
+    }
+    let idx = ctx.record(recorded, outs.join(" ;; "), true);
+    if let Some((i, mut sig, mut what)) = first {
+        if i > 0 {
+            // the same call alone, through fresh handles: if that one agrees with the Rust API the
+            // cause is the reuse of the handle (stale values), not the call
+            if let CRes::Line(alone) = call_c(false, &format_op(&ops[i])) {
+                if judge(ctx, &ops[i], &refs[i], &alone).1.is_none() {
+                    sig = "ffi-handle-reuse";
+                    what = format!(
+                        "a reused coupe_data handle did not deliver the values current at the call (the same call through fresh handles agrees with the Rust API: {}) — {}",
+                        alone, what
+                    );
+                }
+            }
+        }
+        ctx.fail(idx, sig, format!("step {} of {}: {}", i + 1, ops.len(), what));
     }
 }
 
@@ -1323,9 +1440,362 @@ pub fn generate(ctx: &mut Ctx) {
     for c in 0..9 {
         emit_rel(ctx, Op::Strerror(c));
     }
+
+    // ---- 6. special floating-point values of every f64 parameter; 7. handle reuse
+    gen_fparams(ctx);
+    gen_reuses(ctx);
     ctx.notes.push("release library: the dev-profile Rust API stays the reference; where it panics the release result is only required to come back (recorded as `survived`; overflow checks and debug assertions are off there), elsewhere code and array are compared exactly".into());
     ctx.notes.push("FiducciaMattheyses: ids are compared exactly only on inputs whose vertex weights rule out ties (distinct powers of two, or B+2^i); on the others (hash-set iteration order is per-process random) only the code, ids in {0,1} and cut <= initial cut are compared — counted as fm_tie_possible_loose_compare".into());
     ctx.notes.push("f64 weights are integer-valued and point coordinates are integer multiples of the point count, so that rayon's reduction order cannot change a float sum (the comparison is between two processes)".into());
+}
+
+// ------------------------------ special floating-point values of the f64 parameters
+
+/// The f64 parameters of the C entry points: `tolerance` of coupe_rcb / coupe_rib /
+/// coupe_karmarkar_karp_complete (handed to the Rust struct as they are) and `max_imbalance` of
+/// coupe_fiduccia_mattheyses (coupe.h: negative = the imbalance of the input partition).
+const FPARAM_ENTRIES: [&str; 4] = ["rcb", "rib", "ckk", "fm"];
+
+/// Signed zeros, subnormals, the smallest normals, infinities, quiet/signalling NaNs of both
+/// signs, values that vanish next to 1, values that change when squeezed through an f32
+/// (underflow, subnormal, rounding, overflow), the ends of the range — each with both signs.
+fn special_values() -> Vec<f64> {
+    let mut v: Vec<u64> = vec![
+        0x8000_0000_0000_0000,
+        0,
+        1,
+        0x8000_0000_0000_0001,
+        0x000f_ffff_ffff_ffff,
+        0x800f_ffff_ffff_ffff,
+        0x0010_0000_0000_0000,
+        0x8010_0000_0000_0000,
+        0x7ff0_0000_0000_0000,
+        0xfff0_0000_0000_0000,
+        0x7ff8_0000_0000_0000,
+        0xfff8_0000_0000_0000,
+        0x7ff0_0000_0000_0001,
+        0xfff0_0000_0000_0001,
+    ];
+    for x in [1e-300, 1e-50, 1e-40, 1e-17, f64::EPSILON, 0.1, 0.5, 1.0 - f64::EPSILON / 2.0, 1.0, 1.0 + f64::EPSILON, 2.0, 1e39, f64::MAX] {
+        v.push(x.to_bits());
+        v.push((-x).to_bits());
+    }
+    v.into_iter().map(f64::from_bits).collect()
+}
+
+/// A random member of a random special class, random sign.
+fn rand_special(rng: &mut Rng) -> f64 {
+    let m52 = (1u64 << 52) - 1;
+    let mag: u64 = match rng.usize(10) {
+        0 => 0,
+        1 => 1 + rng.below(m52),                                      // subnormal
+        2 => ((1 + rng.below(300)) << 52) | (rng.next() & m52),       // tiny normal
+        3 => ((1023 - 70 + rng.below(70)) << 52) | (rng.next() & m52), // 2^-70 .. 1
+        4 => (1023u64 << 52) | rng.below(4),                          // 1 and a few ulps above
+        5 => (1022u64 << 52) | (m52 - rng.below(4)),                  // a few ulps below 1
+        6 => ((1023 + rng.below(8)) << 52) | (rng.next() & m52),      // 1 .. 256
+        7 => ((2046 - rng.below(300)) << 52) | (rng.next() & m52),    // huge
+        8 => 0x7ffu64 << 52,                                          // infinity
+        _ => (0x7ffu64 << 52) | (1 + rng.below(m52)),                 // NaN, random payload
+    };
+    f64::from_bits(mag | if rng.chance(1, 2) { 1u64 << 63 } else { 0 })
+}
+
+fn fclass(v: f64) -> String {
+    let sign = if v.is_sign_negative() { "-" } else { "+" };
+    let c = if v.is_nan() {
+        "nan"
+    } else if v.is_infinite() {
+        "inf"
+    } else if v == 0.0 {
+        "zero"
+    } else if v.abs() < f64::MIN_POSITIVE {
+        "subnormal"
+    } else if v.abs() < 1e-12 {
+        "tiny"
+    } else if v.abs() > 1e30 {
+        "huge"
+    } else {
+        "ordinary"
+    };
+    format!("{}{}", sign, c)
+}
+
+/// Values a careless translation at the C boundary could turn `v` into (sign dropped or tested by
+/// its bit, clamped, defaulted, squeezed through an f32, "unset", …) — used to look for inputs on
+/// which such a mistake would SHOW, never to judge.
+fn confusions(v: f64) -> Vec<f64> {
+    let cand = [
+        -v,
+        v.abs(),
+        0.0,
+        v.max(0.0),
+        v.min(1.0),
+        (v as f32) as f64,
+        0.05,
+        -1.0,
+        1.0,
+        f64::INFINITY,
+        f64::NAN,
+        f64::MIN_POSITIVE,
+        -f64::MIN_POSITIVE,
+    ];
+    let mut out: Vec<f64> = vec![];
+    for c in cand {
+        if c.to_bits() != v.to_bits() && !out.iter().any(|o| o.to_bits() == c.to_bits()) {
+            out.push(c);
+        }
+    }
+    out
+}
+
+fn param_of(op: &Op) -> f64 {
+    match op {
+        Op::Geo { tol, .. } | Op::Num { tol, .. } => *tol,
+        Op::Fm { imb, .. } => *imb,
+        _ => 0.0,
+    }
+}
+
+fn with_param(op: &Op, a: f64) -> Op {
+    let mut o = op.clone();
+    match &mut o {
+        Op::Geo { tol, .. } | Op::Num { tol, .. } => *tol = a,
+        Op::Fm { imb, .. } => *imb = a,
+        _ => {}
+    }
+    o
+}
+
+/// On how many of the plausible mis-translations of its f64 parameter the Rust API would answer
+/// differently from the documented translation (0 = the input cannot tell them apart).
+fn sensitivity(op: &Op) -> usize {
+    let v = param_of(op);
+    let base = reference(op);
+    if matches!(base, Ref::Hang) {
+        return 0;
+    }
+    let mut n = 0;
+    if let Op::Fm { .. } = op {
+        let key = |t: Option<f64>| t.map(|x| x.to_bits());
+        let doc = fm_documented(v);
+        let mut alts: Vec<Option<f64>> = vec![None, Some(v)];
+        for a in confusions(v) {
+            alts.push(Some(a));
+        }
+        let mut seen: Vec<Option<u64>> = vec![key(doc)];
+        for t in alts {
+            if seen.contains(&key(t)) {
+                continue;
+            }
+            seen.push(key(t));
+            FM_TRANSLATION.with(|c| c.set(Some(t)));
+            let r = reference(op);
+            FM_TRANSLATION.with(|c| c.set(None));
+            if r != base {
+                n += 1;
+            }
+        }
+    } else {
+        for a in confusions(v) {
+            if reference(&with_param(op, a)) != base {
+                n += 1;
+            }
+        }
+    }
+    n
+}
+
+/// One small instance of entry point `entry` (index into FPARAM_ENTRIES) with the f64 parameter `v`.
+fn fparam_instance(ctx: &mut Ctx, entry: usize, v: f64, wty: Ty) -> Op {
+    let rng = &mut ctx.rng;
+    let wrepr = *rng.pick(&[Repr::Arr, Repr::Fn, Repr::Arr, Repr::Fn, Repr::Const]);
+    let prepr = *rng.pick(&REPRS);
+    match entry {
+        0 | 1 => {
+            let dim = 2 + rng.usize(2);
+            let n = 3 + rng.usize(10);
+            Op::Geo {
+                name: if entry == 0 { "rcb" } else { "rib" },
+                dim,
+                iter: 1 + rng.usize(3),
+                tol: v,
+                pts: gen_points(rng, prepr, dim, n, 30),
+                ws: gen_weights(rng, wrepr, wty, n, 9),
+                init: vec![7; n],
+            }
+        }
+        2 => {
+            let n = 2 + rng.usize(8);
+            let hi = *rng.pick(&[4i64, 12, 60]);
+            Op::Num { name: "ckk", parts: 0, tol: v, ws: gen_weights(rng, wrepr, wty, n, hi), init: vec![7; n] }
+        }
+        _ => {
+            // tie-free vertex weights only: the ids are compared exactly
+            let n = 3 + rng.usize(6);
+            let family = rng.usize(2);
+            let mut op = gen_fm(rng, n, if wrepr == Repr::Const { Repr::Fn } else { wrepr }, wty, Ty::I64, family, true);
+            if let Op::Fm { imb, adj, .. } = &mut op {
+                *imb = v;
+                adj.checked = true;
+            }
+            op
+        }
+    }
+}
+
+/// Emits one op of the special-value stream: among a few random instances the one on which most
+/// mis-translations of `v` would change the answer of the Rust API.
+fn fparam_emit(ctx: &mut Ctx, entry: usize, v: f64, wty: Ty, rel: bool) {
+    if entry == 3 && v.is_nan() && v.is_sign_negative() {
+        // "negative" NaN: coupe.h does not say whether a NaN with the sign bit set is negative —
+        // outside the documented contract, counted and not run
+        ctx.count("fparam:fm:sign-bit-nan_not_emitted_undocumented");
+        return;
+    }
+    let tries = ctx.budget(4, 6);
+    let mut best: Option<(usize, Op)> = None;
+    for _ in 0..tries {
+        let op = fparam_instance(ctx, entry, v, wty);
+        let s = sensitivity(&op);
+        if best.as_ref().map_or(true, |(b, _)| s > *b) {
+            best = Some((s, op));
+        }
+        if s >= 3 {
+            break;
+        }
+    }
+    let (s, op) = best.unwrap();
+    ctx.count(&format!(
+        "fparam:{}{}:{}",
+        if rel { "release:" } else { "" },
+        FPARAM_ENTRIES[entry],
+        if s > 0 { "value-sensitive-input" } else { "value-insensitive-input" }
+    ));
+    ctx.count(&format!("fparam:class:{}", fclass(v)));
+    if rel {
+        emit_rel(ctx, op);
+    } else {
+        emit(ctx, op);
+    }
+}
+
+fn gen_fparams(ctx: &mut Ctx) {
+    // systematic: every entry point with an f64 parameter x every special value (x every weight
+    // type in the thorough tier)
+    let specials = special_values();
+    for entry in 0..FPARAM_ENTRIES.len() {
+        for &v in &specials {
+            if ctx.quick() {
+                let wty = *ctx.rng.pick(&TYS);
+                fparam_emit(ctx, entry, v, wty, false);
+            } else {
+                for &wty in &TYS {
+                    fparam_emit(ctx, entry, v, wty, false);
+                }
+            }
+        }
+    }
+    // randomised members of the same classes
+    for _ in 0..ctx.budget(80, 2000) {
+        let v = rand_special(&mut ctx.rng);
+        let entry = ctx.rng.usize(FPARAM_ENTRIES.len());
+        let wty = *ctx.rng.pick(&TYS);
+        fparam_emit(ctx, entry, v, wty, false);
+    }
+    // a sample through the release library
+    for _ in 0..ctx.budget(40, 400) {
+        let v = if ctx.rng.chance(2, 3) { *ctx.rng.pick(&specials) } else { rand_special(&mut ctx.rng) };
+        let entry = ctx.rng.usize(FPARAM_ENTRIES.len());
+        let wty = *ctx.rng.pick(&TYS);
+        fparam_emit(ctx, entry, v, wty, true);
+    }
+    ctx.notes.push(format!(
+        "special f64 parameter values: tolerance of rcb/rib/ckk and max_imbalance of fm at {} systematic values (signed zeros, smallest/largest subnormals, smallest normals, +-inf, quiet/signalling NaNs of both signs, 1e-300, 1e-17, epsilon, values that change through an f32, 1 +- ulp, f64::MAX; both signs) plus randomised members of the same classes; reference = the Rust API on the documented translation (tolerance as is; max_imbalance < 0 -> None, so -0.0 and NaN are Some); inputs are picked among a few random instances for being able to tell the documented translation from plausible wrong ones (counted value-sensitive-input / value-insensitive-input); FiducciaMattheyses instances there are tie-free so that ids are compared exactly; a NaN max_imbalance with the sign bit set is not emitted (undocumented)",
+        specials.len()
+    ));
+}
+
+// ------------------------------------------------ handle reuse across calls
+
+fn pin_const(d: &mut DataSet, slot: &mut Option<DataSet>) {
+    if d.repr == Repr::Const {
+        match slot {
+            Some(c) if c.ty == d.ty && c.arity == d.arity && c.len == d.len => *d = c.clone(),
+            _ => *slot = Some(d.clone()),
+        }
+    }
+}
+
+/// A sequence of 2–4 calls whose data sets have the same shapes, so that the C driver passes the
+/// SAME coupe_data handles again after overwriting the values behind them (array and callback
+/// data change between the calls; a constant keeps its value: coupe.h says it is "copied" without
+/// saying when).
+fn gen_reuse(ctx: &mut Ctx) -> Vec<Op> {
+    let rng = &mut ctx.rng;
+    let steps = 2 + rng.usize(3);
+    let dim = 2 + rng.usize(2);
+    let wty = if rng.chance(1, 2) { Ty::F64 } else { *rng.pick(&TYS) };
+    let wrepr = *rng.pick(&[Repr::Fn, Repr::Fn, Repr::Fn, Repr::Arr, Repr::Const]);
+    let prepr = *rng.pick(&[Repr::Fn, Repr::Fn, Repr::Fn, Repr::Arr, Repr::Const]);
+    let n = 4 + rng.usize(12);
+    let mut entries: Vec<&'static str> = vec!["rib", "rib", "rcb", "fm", "fm", "greedy", "kk", "ckk"];
+    if wty == Ty::F64 && dim == 2 {
+        entries.extend(["hilbert", "hilbert", "hilbert", "hilbert"]);
+    }
+    let same = rng.chance(1, 2);
+    let first = *rng.pick(&entries);
+    let mut const_w: Option<DataSet> = None;
+    let mut const_p: Option<DataSet> = None;
+    let mut ops = vec![];
+    for k in 0..steps {
+        let e = if same || k == 0 { first } else { *rng.pick(&entries) };
+        let mut ws = gen_weights(rng, wrepr, wty, n, 40);
+        pin_const(&mut ws, &mut const_w);
+        let mut pts = gen_points(rng, prepr, dim, n, 30);
+        pin_const(&mut pts, &mut const_p);
+        let op = match e {
+            "rcb" | "rib" => Op::Geo { name: if e == "rcb" { "rcb" } else { "rib" }, dim, iter: 1 + rng.usize(3), tol: tol_pick(rng), pts, ws, init: vec![7; n] },
+            "hilbert" => Op::Hilbert { parts: 2 + rng.usize(3), order: *rng.pick(&[4u32, 8, 16]), pts, ws, init: vec![7; n] },
+            "greedy" => Op::Num { name: "greedy", parts: 2 + rng.usize(3), tol: 0.0, ws, init: vec![7; n] },
+            "kk" => Op::Num { name: "kk", parts: 2 + rng.usize(3), tol: 0.0, ws, init: vec![7; n] },
+            "ckk" => Op::Num { name: "ckk", parts: 0, tol: *rng.pick(&[0.1, 0.5]), ws, init: vec![7; n] },
+            _ => {
+                let family = rng.usize(2);
+                let mut op = gen_fm(rng, n, wrepr, wty, Ty::I64, family, true);
+                if let Op::Fm { ws, adj, .. } = &mut op {
+                    adj.checked = true;
+                    pin_const(ws, &mut const_w);
+                }
+                op
+            }
+        };
+        ops.push(op);
+    }
+    ops
+}
+
+fn gen_reuses(ctx: &mut Ctx) {
+    for _ in 0..ctx.budget(120, 1500) {
+        let ops = gen_reuse(ctx);
+        let names: Vec<&str> = ops
+            .iter()
+            .map(|o| match o {
+                Op::Geo { name, .. } | Op::Num { name, .. } => *name,
+                Op::Hilbert { .. } => "hilbert",
+                Op::Fm { .. } => "fm",
+                Op::Strerror(_) => "strerror",
+            })
+            .collect();
+        ctx.count(&format!("reuse:steps{}", ops.len()));
+        ctx.count(&format!("reuse:first:{}", names[0]));
+        if names.iter().any(|n| *n != names[0]) {
+            ctx.count("reuse:mixed_entry_points");
+        }
+        let s = format!("reuse {}", ops.iter().map(format_op).collect::<Vec<_>>().join(" ;; "));
+        run_op(ctx, &s);
+    }
+    ctx.notes.push("handle reuse: sequences of 2-4 calls (one entry point repeated, or a mix of the seven) executed by the C driver on the SAME coupe_data handles — between the calls the memory behind an array handle and the values a callback returns are overwritten (a constant keeps its value), each call is compared with the Rust API on the values current at that call; a step that fails in the sequence but agrees through fresh handles is reported as ffi-handle-reuse".into());
 }
 
 fn emit_rel(ctx: &mut Ctx, op: Op) {
